@@ -28,6 +28,16 @@ func noop(e *enc, x *ssa.Call, args []Term) bool {
 	return true
 }
 
+// (value, error) results: the value is non-nil when the error is nil
+func valueOrError(e *enc, x *ssa.Call, args []Term) bool {
+	sig := x.Common().Signature()
+	ts := e.freshResults(x, sig, "ve")
+	if len(ts) == 2 {
+		e.assume(fmt.Sprintf("(=> (= %s 0) (not (= %s 0)))", ts[1], ts[0]))
+	}
+	return true
+}
+
 // path ends here (os.Exit, log.Fatal)
 func exits(e *enc, x *ssa.Call, args []Term) bool {
 	e.fr.cur = "false"
@@ -40,6 +50,7 @@ const builtinPrelude = `(declare-fun Itoa (Int) String)
 (declare-fun SplitF (String String) Slice_String)
 (declare-fun JoinF (Slice_String String) String)
 (declare-fun TrimSpaceF (String) String)
+(declare-fun TrimLeftF (String String) String)
 `
 
 var strSliceTy = types.NewSlice(types.Typ[types.String])
@@ -89,10 +100,10 @@ func init() {
 		},
 		"strings.TrimLeft": func(e *enc, x *ssa.Call, a []Term) bool {
 			// result is the suffix of s starting at the first character not in cutset
-			r := e.fresh("triml", "String")
+			r := e.define("triml", "String", fmt.Sprintf("(TrimLeftF %s %s)", a[0], a[1]))
 			e.assume(fmt.Sprintf("(str.suffixof %s %s)", r, a[0]))
 			e.assume(fmt.Sprintf("(=> (> (str.len %s) 0) (not (str.contains %s (str.at %s 0))))", r, a[1], r))
-			e.assume(fmt.Sprintf("(forall ((i Int)) (=> (and (<= 0 i) (< i (- (str.len %s) (str.len %s)))) (str.contains %s (str.at %s i))))", a[0], r, a[1], a[0]))
+			e.assume(fmt.Sprintf("(=> (< (str.len %s) (str.len %s)) (str.contains %s (str.at %s 0)))", r, a[0], a[1], a[0]))
 			e.fr.val[x] = r
 			return true
 		},
@@ -136,6 +147,7 @@ func init() {
 		},
 		"fmt.Println": noop, "fmt.Printf": noop, "fmt.Print": noop, "fmt.Fprintf": noop, "fmt.Fprintln": noop, "fmt.Fprint": noop,
 		"log.Println": noop, "log.Printf": noop, "log.Print": noop,
+		"os.Stat": valueOrError, "os.Lstat": valueOrError, "os.Open": valueOrError, "os.Create": valueOrError, "os.OpenFile": valueOrError,
 		"os.Exit": exits, "log.Fatal": exits, "log.Fatalf": exits, "log.Fatalln": exits,
 		"(*regexp.Regexp).MatchString":        regexMatch,
 		"(*regexp.Regexp).FindString":         regexFind,
@@ -160,13 +172,11 @@ func (e *enc) caseAxioms() {
 
 // trimFacts: ground facts about r = TrimSpaceF(s): r is s[k:k+len r], no blank at either end of r, only blanks cut off at position 0 / last
 func (e *enc) trimFacts(s, r Term) {
-	k := e.fresh("trimk", "Int")
-	e.assumps["strings.TrimSpace contract: result is a contiguous piece of the input without blank at either end; what is cut off are blanks (stated for the first and last cut character); ASCII blanks only"] = true
-	e.assume(fmt.Sprintf("(and (<= 0 %[3]s) (<= (+ %[3]s (str.len %[2]s)) (str.len %[1]s)) (= %[2]s (str.substr %[1]s %[3]s (str.len %[2]s))))", s, r, k))
+	pre, post := e.fresh("trimpre", "String"), e.fresh("trimpost", "String")
+	e.assumps["strings.TrimSpace contract: input = blanks ++ result ++ blanks, result has no blank at either end (ASCII blanks; U+0085/U+00A0 not modelled)"] = true
+	blanks := `(re.* (re.union (str.to_re " ") (re.range "\u{9}" "\u{d}")))`
+	e.assume(fmt.Sprintf("(and (= %s (str.++ %s %s %s)) (str.in_re %s %s) (str.in_re %s %s))", s, pre, r, post, pre, blanks, post, blanks))
 	e.assume(fmt.Sprintf("(=> (> (str.len %[1]s) 0) (and (not %[2]s) (not %[3]s)))", r, isBlank("(str.at "+r+" 0)"), isBlank("(str.at "+r+" (- (str.len "+r+") 1))")))
-	e.assume(fmt.Sprintf("(=> (> %[1]s 0) %[2]s)", k, isBlank("(str.at "+s+" 0)")))
-	e.assume(fmt.Sprintf("(=> (< (+ %[3]s (str.len %[2]s)) (str.len %[1]s)) %[4]s)", s, r, k, isBlank("(str.at "+s+" (- (str.len "+s+") 1))")))
-	e.assume(fmt.Sprintf("(=> (and (= (str.len %[2]s) 0) (> (str.len %[1]s) 0)) %[3]s)", s, r, isBlank("(str.at "+s+" 0)")))
 }
 
 // splitFacts: ground facts about r = SplitF(s, p)
@@ -213,6 +223,17 @@ func (e *enc) regexOf(v ssa.Value) (string, bool) {
 		if cal := x.Common().StaticCallee(); cal != nil && (cal.String() == "regexp.MustCompile") {
 			if c, ok := x.Common().Args[0].(*ssa.Const); ok {
 				return constString(c), true
+			}
+			// pattern held in a package-level string variable that is only assigned by its initialiser
+			if u, ok := x.Common().Args[0].(*ssa.UnOp); ok {
+				if g, ok := u.X.(*ssa.Global); ok {
+					sts := e.w.globalStores()[g]
+					if len(sts) == 1 && sts[0].st != nil && sts[0].dir && !e.w.gaddr[g] && sts[0].fn.Name() == "init" {
+						if c, ok := sts[0].st.Val.(*ssa.Const); ok {
+							return constString(c), true
+						}
+					}
+				}
 			}
 		}
 	case *ssa.Extract:
@@ -263,7 +284,23 @@ func regexFind(e *enc, x *ssa.Call, a []Term) bool {
 	e.extUsed["regexp "+pat] = true
 	r := e.fresh("refind", "String")
 	// result is "" when there is no match, otherwise a substring of s that matches the expression (leftmost-first choice not modelled)
-	e.assume(fmt.Sprintf("(ite (str.in_re %s %s) (and (str.contains %s %s) (str.in_re %s %s)) (= %s \"\"))", a[1], re.unanchored(), a[1], r, r, re.core(), r))
+	pos := "(str.contains " + a[1] + " " + r + ")"
+	if re.anchorStart {
+		pos = "(str.prefixof " + r + " " + a[1] + ")"
+	}
+	if re.anchorEnd {
+		pos = "(and " + pos + " (str.suffixof " + r + " " + a[1] + "))"
+	}
+	if re.firstLit != "" {
+		pos = "(and " + pos + " (str.prefixof " + smtStr(re.firstLit) + " " + r + "))"
+	}
+	if re.lastLit != "" {
+		pos = "(and " + pos + " (str.suffixof " + smtStr(re.lastLit) + " " + r + "))"
+	}
+	if len(re.firstLit) == 1 && len(re.lastLit) == 1 && re.minLen >= 2 {
+		pos = fmt.Sprintf("(and %s (= %s (str.++ %s (str.substr %s 1 (- (str.len %s) 2)) %s)))", pos, r, smtStr(re.firstLit), r, r, smtStr(re.lastLit))
+	}
+	e.assume(fmt.Sprintf("(ite (str.in_re %s %s) (and %s (str.in_re %s %s) (>= (str.len %s) %d) (<= (str.len %s) (str.len %s))) (= %s \"\"))", a[1], re.unanchored(), pos, r, re.core(), r, re.minLen, r, a[1], r))
 	e.fr.val[x] = r
 	return true
 }
